@@ -56,8 +56,32 @@ func runC09(c *eng.Ctx) {
 		g := c.Fn(kvsT + ".getOrCreateValue")
 		facts := p.MustFacts(g)
 		call := c.One(g, eng.CallTo(kvsT+".createValue"), "createValue call")
-		mem := c.One(g, eng.CallTo(kvsT+".GetValueFromMem"), "memory lookup")
-		miss := facts.Find(facts.At(call.Instr), "false", func(_ string, v ssa.Value) bool { return extractIs(v, mem.Instr.(ssa.Value), 1) }, nil)
+		// the memory lookup: a call of GetValueFromMem, or its body (getValueFromMem on mutable, then immutable) written in place
+		memTop := c.Some(g, eng.Any(eng.CallTo(kvsT+".GetValueFromMem"), eng.CallTo(kvsT+".getValueFromMem")), "memory lookup")
+		isMemOK := func(v ssa.Value) bool {
+			var rec func(x ssa.Value, d int) bool
+			rec = func(x ssa.Value, d int) bool {
+				if d > 4 {
+					return false
+				}
+				if ph, ok := x.(*ssa.Phi); ok {
+					for _, e := range ph.Edges {
+						if !rec(e, d+1) {
+							return false
+						}
+					}
+					return len(ph.Edges) > 0
+				}
+				for _, mt := range memTop {
+					if extractIs(x, mt.Instr.(ssa.Value), 1) {
+						return true
+					}
+				}
+				return false
+			}
+			return rec(v, 0)
+		}
+		miss := facts.Find(facts.At(call.Instr), "false", func(_ string, v ssa.Value) bool { return isMemOK(v) }, nil)
 		c.Check(len(miss) > 0, "create-only-on-memory-miss", call.Instr, g, "creation is attempted only after the memory lookup missed", "facts: "+strings.Join(facts.Render(facts.At(call.Instr)), " ; "))
 		per := p.Sites(g, eng.Any(invokeOn("", "GetBucket"), invokeOn(".bucketCache", "Get")))
 		c.Check(len(per) >= 2 && eng.DominatedBy(g, call.Instr, per, nil), "persisted-consulted", call.Instr, g, "the persisted bucket (cache or reader) is consulted before creating", "createValue reachable without a persisted lookup")
@@ -68,6 +92,9 @@ func runC09(c *eng.Ctx) {
 		c.Check(len(gv) > 0 && !skip, "persisted-miss-before-create", call.Instr, g, "with a persisted bucket present, creation happens only after bucket.GetValue missed", "a path with a non-nil bucket reaches createValue without GetValue")
 		// GetValueFromMem covers mutable and immutable under the read lock
 		m := c.Fn(kvsT + ".GetValueFromMem")
+		if len(p.Sites(g, eng.CallTo(kvsT+".GetValueFromMem"))) == 0 {
+			m = g // written in place
+		}
 		ls := p.Locks(m, nil)
 		for _, mm := range []string{"mutable", "immutable"} {
 			var look []eng.Site
@@ -389,11 +416,11 @@ func runC09(c *eng.Ctx) {
 		}
 		g := c.Fn(midT + ".GenSeriesID")
 		add := c.One(g, invokeOnGeneric(".sequenceCache", "Add"), "sequenceCache.Add")
-		put := c.One(g, eng.CallTo("index.invertedIndex.put"), "metricInverted.put")
+		put := c.One(g, eng.And(eng.CallTo("index.invertedIndex.put"), invokeOn(".metricInverted", "put")), "metricInverted.put")
 		goc := c.One(g, invokeOn(".series", "GetOrCreateValue"), "series.GetOrCreateValue")
 		for _, x := range []eng.Site{add, put} {
 			a := eng.CallArgs(x.Instr.(*ssa.Call))
-			c.Check(eng.DerivesFromCall(a[1], goc.Instr.(ssa.Value), 0) && p.Desc(a[0]) != "", "records-created-id:"+shortInstr(p, x.Instr), x.Instr, g,
+			c.Check(eng.DerivesFromCall(eng.UpParam(a[1]), goc.Instr.(ssa.Value), 0) && p.Desc(a[0]) != "", "records-created-id:"+shortInstr(p, x.Instr), x.Instr, g,
 				"the ID recorded in the cache / posting list is the one the dictionary just created", "records "+p.Desc(a[1]))
 		}
 		facts := p.MustFacts(g)
@@ -900,7 +927,7 @@ func gocCreateValue(c *eng.Ctx) {
 		snapArg := eng.CallArgs(call.Instr.(*ssa.Call))[2]
 		sn, ok := snapArg.(*ssa.Call)
 		okSnap := ok && inList(strings.Join(p.CalleeKeys(sn), ""), []string{kvsT + ".getSnapshot"})
-		memLook := c.Some(g, eng.CallTo(kvsT+".GetValueFromMem"), "memory lookup")
+		memLook := c.Some(g, eng.Any(eng.CallTo(kvsT+".GetValueFromMem"), eng.CallTo(kvsT+".getValueFromMem")), "memory lookup")
 		c.Check(okSnap && eng.DominatedBy(g, memLook[0].Instr, []eng.Site{{Fn: g, Instr: sn}}, nil), "lookup-snapshot-taken-first", call.Instr, g,
 			"the snapshot handed to createValue is captured before the memory lookup (so a flush completing during the lookup is detected)", "snapshot argument is "+p.Desc(snapArg))
 	}
